@@ -33,6 +33,8 @@ const slicePrelude = `(declare-sort Str 0)
 (declare-fun uf_shl (Int Int) Int)
 (declare-fun uf_shr (Int Int) Int)
 (declare-fun uf_rem (Int Int) Int)
+(declare-fun at (Int Int) Int)
+(assert (forall ((o Int) (i Int)) (! (= (at o i) (+ o i)) :pattern ((at o i)))))
 `
 
 func isNamed(t types.Type, pkg, name string) bool {
@@ -175,7 +177,7 @@ func (e *Eng) zero(t types.Type) string {
 	case *types.Slice:
 		return "(mk_slice 0 0 0 0)"
 	case *types.Array:
-		return fmt.Sprintf("((as const %s) %s)", e.sortOf(t), e.zero(u.Elem()))
+		return e.constArray(e.sortOf(t), e.zero(u.Elem()))
 	case *types.Struct:
 		name := e.structSort(t, u)
 		if u.NumFields() == 0 {
@@ -290,4 +292,18 @@ func isStructValue(t types.Type) bool {
 		return false
 	}
 	return structOf(t) != nil
+}
+
+// constArray: cvc5 wants a *value* under (as const ...); zero values mentioning the
+// uninterpreted empty string are given through an axiomatised constant instead.
+func (e *Eng) constArray(arrSort, zero string) string {
+	if !strings.Contains(zero, "str_empty") {
+		return fmt.Sprintf("((as const %s) %s)", arrSort, zero)
+	}
+	name := "zarr_" + sanitize(arrSort)
+	if !e.sc.declared[name] {
+		e.sc.declConst(name, arrSort)
+		e.sc.declare(name+"_ax", fmt.Sprintf("(assert (forall ((i Int)) (! (= (select %s i) %s) :pattern ((select %s i)))))", name, zero, name))
+	}
+	return name
 }
